@@ -381,3 +381,15 @@ PROPS["C14"]["fuzz_max_len"] = 2048
 
 PROPS["C02"]["quick"].update({"cases": 200000, "floor_evaluations": 300000, "floor_nontrivial": 60000, "require_labels": ["doc-from-history", "doc-from-json", "doc-from-msgpack"]})
 PROPS["C08"]["quick"].update({"cases": 250000, "floor_evaluations": 400000, "floor_nontrivial": 60000, "require_labels": ["doc-from-history", "large-item"]})
+
+# thorough budgets rebalanced after the first complete thorough run (7.5 h): the two heaviest tiers
+# are cut, the cheap ones are raised; target about 5 h for all twenty on 16 cores
+PROPS["C14"]["thorough"]["cases"] = 250000     # was 800000 (2.3 h)
+PROPS["C06"]["thorough"]["cases"] = 900000     # was 2000000 (1.2 h)
+PROPS["C04"]["thorough"]["cases"] = 500000     # was 800000
+PROPS["C07"]["thorough"]["cases"] = 40000000   # was 6000000 (1 min)
+PROPS["C17"]["thorough"]["cases"] = 100000000  # was 20000000 (1.5 min)
+PROPS["C18"]["thorough"]["cases"] = 40000000   # was 6000000
+PROPS["C02"]["thorough"]["cases"] = 10000000   # was 3000000
+PROPS["C08"]["thorough"]["cases"] = 15000000   # was 5000000
+PROPS["C16"]["thorough"]["cases"] = 30000000   # was 8000000
